@@ -64,7 +64,12 @@ def translate_checked(utils, tr, p, mutated, label):
     txt = utils.translate_program(tr, p)
     b1 = pickle.dumps(p)
     if b0 != b1:
-        mutated.append(label)
+        # structurally different, or only the object graph (sharing / identity)?
+        try:
+            same = P.PSer(pickle.loads(b0)).prog() == P.PSer(pickle.loads(b1)).prog()
+        except Exception:       # noqa: BLE001
+            same = None
+        mutated.append(label + (same, b0))
     return txt
 
 
@@ -183,8 +188,13 @@ def run(tier, seed, replay=None):
                     utils.translate_program(TR[ol]("src.pkg", OPTS), p)
                 except Exception as e:      # noqa: BLE001  (a Kotlin program given to another translator)
                     other_fail[ol] = other_fail.get(ol, 0) + 1
-                if pickle.dumps(p) != b0:
-                    mutated.append((o.vid, "translated to %s" % ol))
+                b1 = pickle.dumps(p)
+                if b1 != b0:
+                    try:
+                        same = P.PSer(pickle.loads(b0)).prog() == P.PSer(pickle.loads(b1)).prog()
+                    except Exception:       # noqa: BLE001
+                        same = None
+                    mutated.append((o.vid, "translated to %s" % ol, same, b0))
             lab += "/after-java-groovy-scala"
         o.see(long_lived.package, translate_checked(utils, long_lived, p, mutated, (o.vid, lab)), lab)
         ntrans += 1
@@ -324,10 +334,21 @@ def run(tier, seed, replay=None):
                                                                            texts[0][max(0, d - 30):d + 30], texts[1][max(0, d - 30):d + 30]),
                       dict(lang=o.lang, seed=o.seed, stage=o.stage, program_bin=save(o)))
     byvid = {o.vid: o for o in variants + fuzz}
-    for vid, lab in mutated[:10]:
-        o = byvid.get(vid)
-        rep.violation("mutation", "translating modified the program (pickle snapshot differs): variant %s, %s" % (vid, lab),
-                      dict(variant=vid, history=lab, program_bin=save(o) if o else None), no_input=o is None)
+    nmut = {}
+    for vid, lab, same, b0 in mutated:
+        kind = "mutation-identity-only" if same else "mutation-structural"
+        nmut[kind] = nmut.get(kind, 0) + 1
+        if nmut[kind] > 3:
+            continue
+        path = os.path.join(C.REPLAYS, "C11", "prog-before-%s-%s.bin" % (vid, abs(hash(lab)) % 100000))
+        with open(path, "wb") as f:
+            f.write(b0)
+        rep.violation(kind, "translating modified the program object (pickle snapshot before/after differs; the serialised "
+                      "structure is %s): variant %s, %s" % ("the same: an object was replaced by an equal copy" if same else
+                                                            "DIFFERENT", vid, lab),
+                      dict(variant=vid, history=lab, program_bin=path, lang=(byvid[vid].lang if vid in byvid else None), shape=kind,
+                           where="tu.is_sam -> ClassDeclaration.get_abstract_functions (ast.py:754/765) reassigns .bound of a "
+                                 "type parameter of the program" if same else None))
     for vid in ser_changed[:5]:
         rep.violation("mutation", "the serialised program differs after the histories: variant %s" % vid,
                       dict(variant=vid, program_bin=save(byvid[vid])))
@@ -364,7 +385,7 @@ def run(tier, seed, replay=None):
             evaluations=compared, traces_validated_against_impl=compared, model_impl_mismatches=mism,
             distinct_nontrivial=len({t for o in variants + fuzz for tx in o.texts.values() for t in tx}),
             kotlin_translations=ntrans + 4 * len(variants) // 3, history_dependent_variants=hist_viol,
-            model_history_replayed=hist_ok, program_snapshots_changed=len(mutated) + len(ser_changed),
+            model_history_replayed=hist_ok, program_snapshots_changed=len(mutated) + len(ser_changed), snapshot_change_kinds=nmut,
             other_translator_failures_on_foreign_programs=other_fail,
             exploration_other_languages=dict(expl, label="EXPLORATION: Java/Groovy/Scala have no model; long-lived object vs fresh object only"),
             generation_abandoned_after_10s=[list(g) for g in gen_timeouts], exceptions=len(crashes), exception_samples=[list(c) for c in crashes[:5]],
